@@ -74,10 +74,13 @@ class StoreSQLite(Store):
             # need leading comma
             create_primary_key = f', PRIMARY KEY ({primary_fields})'
 
-        field_name_to_field_type = (
+        field_name_to_field_type = [
                 (field, cls._dtype_to_affinity_type(dtype))
                 for field, dtype in zip(field_names, dtypes)
-                )
+                ]
+        if include_index and index.depth == 1 and field_name_to_field_type[0][1] == 'INTEGER':
+            # a single-column INTEGER PRIMARY KEY is an alias of the rowid: rows would be returned sorted by the index, not in the order written; INT has the same affinity without the alias
+            field_name_to_field_type[0] = (field_name_to_field_type[0][0], 'INT')
 
         create_fields = ', '.join(f'{k} {v}' for k, v in field_name_to_field_type)
         create = f'CREATE TABLE "{label}" ({create_fields}{create_primary_key})'
